@@ -7,6 +7,12 @@
 #include <list>
 #include <set>
 #include <map>
+#include <memory>
+#include <booster/shared_ptr.h>
+#include <booster/hold_ptr.h>
+#include <booster/copy_ptr.h>
+#include <booster/clone_ptr.h>
+#include <booster/intrusive_ptr.h>
 namespace cppcms {
 template struct archive_traits<std::pair<int, std::string> >;
 template struct archive_traits<std::vector<std::string> >;
@@ -17,6 +23,32 @@ template struct archive_traits<std::map<std::string, int> >;
 template struct archive_traits<std::multimap<int, std::string> >;
 template struct archive_traits<int[3]>;
 template struct archive_traits<std::string[2]>;
+}
+// smart pointers: the traits come from two macros of archive_traits.h that nothing in the library instantiates
+namespace c19w {
+struct node {
+	int v;
+	long refs;
+	node() : v(0), refs(0) {}
+	node *clone() const { return new node(*this); }
+};
+inline void intrusive_ptr_add_ref(node *p) { ++p->refs; }
+inline void intrusive_ptr_release(node *p) { if(--p->refs == 0) delete p; }
+}
+namespace cppcms {
+template<>
+struct archive_traits<c19w::node> {
+	static void save(c19w::node const &d, archive &a) { a.write_chunk(&d.v, sizeof(d.v)); }
+	static void load(c19w::node &d, archive &a) { a.read_chunk(&d.v, sizeof(d.v)); }
+};
+}
+namespace cppcms {
+template struct archive_traits<booster::shared_ptr<c19w::node> >;
+template struct archive_traits<booster::hold_ptr<c19w::node> >;
+template struct archive_traits<booster::copy_ptr<c19w::node> >;
+template struct archive_traits<booster::clone_ptr<c19w::node> >;
+template struct archive_traits<std::unique_ptr<c19w::node> >;
+template struct archive_traits<booster::intrusive_ptr<c19w::node> >;
 }
 void c19_witness(cppcms::archive &a, std::vector<int> &vi, std::string &s, double &d)
 {
